@@ -685,7 +685,7 @@ func c04Worker(args []string) int {
 			c04Exec(t, ts.cases)
 		}()
 		if d := time.Since(start); d > 30*time.Second && len(out.Slow) < 50 {
-			out.Slow = append(out.Slow, Violation{"c04|slow|" + t.entry, fmt.Sprintf("task %d: %s on %s took %v for %d input bytes", k, t.entry, t.label, d, len(t.data)), nil})
+			out.Slow = append(out.Slow, Violation{"c04|slow|" + t.entry, fmt.Sprintf("task %d: %s on %s took %v for %d input bytes", k, t.entry, t.label, d, len(t.data)), map[string]interface{}{"task": k}})
 		}
 		out.Executed++
 		out.Entries[t.entry]++
@@ -814,10 +814,48 @@ func c04Parent(args []string) int {
 					for k, v := range out.Entries {
 						entries[k] += v
 					}
-					for _, p := range append(out.Panics, out.Slow...) {
+					for _, p := range out.Panics {
 						rep.violate(p.Sig, p.Detail, p.Replay)
 					}
+					slow := out.Slow
 					mu.Unlock()
+					// a task that took more than 30 s while the machine was busy is only a verdict if it is slow on its own
+					// too: twice in isolation, more than 10 s each
+					for _, p := range slow {
+						task := int64(p.Replay.(map[string]interface{})["task"].(float64))
+						confirmed := 0
+						for try := 0; try < 2; try++ {
+							oargs := []string{"c04-worker", "-vec", *vecPath, "-cases", *casePath, "-mut", *mutPath, "-seed", fmt.Sprint(*seedv), "-only", fmt.Sprint(task)}
+							if *deep {
+								oargs = append(oargs, "-deep")
+							}
+							ocmd := exec.Command(self, oargs...)
+							var obuf bytes.Buffer
+							ocmd.Stdout = &obuf
+							if ocmd.Run() != nil {
+								continue
+							}
+							var o c04WorkerOut
+							ol := strings.Split(strings.TrimSpace(obuf.String()), "\n")
+							if json.Unmarshal([]byte(ol[len(ol)-1]), &o) != nil {
+								continue
+							}
+							var us int64
+							for _, m := range o.Millis {
+								us += m
+							}
+							if us > 10*1000*1000 {
+								confirmed++
+							}
+						}
+						mu.Lock()
+						if confirmed == 2 {
+							rep.violate(p.Sig, p.Detail+"; slow again twice in isolation (more than 10 s each)", p.Replay)
+						} else {
+							rep.Notes = append(rep.Notes, fmt.Sprintf("%s - not slow in isolation (%d/2): not a verdict", p.Detail, confirmed))
+						}
+						mu.Unlock()
+					}
 					return
 				}
 				at := readProgress()
